@@ -283,8 +283,7 @@ def main() -> int:
     sc = cases[smp["k"] - 1]
     n_slots_sub = sum(1 for c in cases if len(c["slots"]) <= maxslots)
     cov = {"states": max(r.distinct, 1), "transitions": max(len(trs), 1), "traces_validated_against_impl": len(steps_v),
-           "real_executions_distinct": n_real, "initial_contexts": (r.printed("NCASES") or [{}])[-1].get("contexts", 0),
-           "states_one_step_from_a_context": n_init - (r.printed("NCASES") or [{}])[-1].get("contexts", 0),
+           "real_executions_distinct": n_real, "initial_contexts": n_init,
            "registered_tags": built["n_tags"], "classes": built["n_classes"], "declarations_class_level": built["n_class_decls"],
            "declarations_tag_level": built["n_decls"], "cases_tag_x_xsdtype": len(cases),
            "applicable_declarations": sum(len(c["decls"]) for c in cases), "declarations_judged": len(judged_decl),
